@@ -103,6 +103,15 @@ func errFromOSDest(err error) error {
 	return errFromOS(err)
 }
 
+// pathsOverlap reports whether two cleaned local paths are equal or one
+// contains the other.
+func pathsOverlap(a, b string) bool {
+	within := func(p, dir string) bool {
+		return p == dir || strings.HasPrefix(p, strings.TrimSuffix(dir, string(filepath.Separator))+string(filepath.Separator))
+	}
+	return within(a, b) || within(b, a)
+}
+
 func (fs LocalFileSystem) Stat(ctx context.Context, name string) (*FileInfo, error) {
 	p, err := fs.localPath(name)
 	if err != nil {
@@ -267,17 +276,18 @@ func (fs LocalFileSystem) Copy(ctx context.Context, src, dst string, options *Co
 		return false, err
 	}
 
-	// TODO: "Note that an infinite-depth COPY of /A/ into /A/B/ could lead to
-	// infinite recursion if not handled correctly"
-
-	srcInfo, err := os.Stat(srcPath)
-	if err != nil {
+	if _, err := os.Stat(srcPath); err != nil {
 		return false, errFromOS(err)
 	}
-	srcPerm := srcInfo.Mode() & os.ModePerm
+
+	// "Note that an infinite-depth COPY of /A/ into /A/B/ could lead to
+	// infinite recursion if not handled correctly"
+	if pathsOverlap(srcPath, dstPath) {
+		return false, NewHTTPError(http.StatusForbidden, fmt.Errorf("webdav: source and destination overlap"))
+	}
 
 	if _, err := os.Stat(dstPath); err != nil {
-		if !os.IsNotExist(err) {
+		if !os.IsNotExist(err) && !errors.Is(err, syscall.ENOTDIR) {
 			return false, errFromOS(err)
 		}
 		created = true
@@ -292,15 +302,22 @@ func (fs LocalFileSystem) Copy(ctx context.Context, src, dst string, options *Co
 
 	err = filepath.Walk(srcPath, func(p string, fi os.FileInfo, err error) error {
 		if err != nil {
-			return err
+			return errFromOS(err)
 		}
 
+		rel, err := filepath.Rel(srcPath, p)
+		if err != nil {
+			return err
+		}
+		target := filepath.Join(dstPath, rel)
+		perm := fi.Mode() & os.ModePerm
+
 		if fi.IsDir() {
-			if err := os.Mkdir(dstPath, srcPerm); err != nil {
-				return errFromOS(err)
+			if err := os.Mkdir(target, perm); err != nil {
+				return errFromOSDest(err)
 			}
 		} else {
-			if err := copyRegularFile(srcPath, dstPath, srcPerm); err != nil {
+			if err := copyRegularFile(p, target, perm); err != nil {
 				return err
 			}
 		}
@@ -311,7 +328,8 @@ func (fs LocalFileSystem) Copy(ctx context.Context, src, dst string, options *Co
 		return nil
 	})
 	if err != nil {
-		return false, errFromOS(err)
+		// already converted by the callback
+		return false, err
 	}
 
 	return created, nil
@@ -327,8 +345,15 @@ func (fs LocalFileSystem) Move(ctx context.Context, src, dst string, options *Mo
 		return false, err
 	}
 
+	if _, err := os.Stat(srcPath); err != nil {
+		return false, errFromOS(err)
+	}
+	if pathsOverlap(srcPath, dstPath) {
+		return false, NewHTTPError(http.StatusForbidden, fmt.Errorf("webdav: source and destination overlap"))
+	}
+
 	if _, err := os.Stat(dstPath); err != nil {
-		if !os.IsNotExist(err) {
+		if !os.IsNotExist(err) && !errors.Is(err, syscall.ENOTDIR) {
 			return false, errFromOS(err)
 		}
 		created = true
@@ -342,7 +367,7 @@ func (fs LocalFileSystem) Move(ctx context.Context, src, dst string, options *Mo
 	}
 
 	if err := os.Rename(srcPath, dstPath); err != nil {
-		return false, errFromOS(err)
+		return false, errFromOSDest(err)
 	}
 
 	return created, nil
